@@ -4,5 +4,5 @@ for spec in "$@"; do
   id=${spec%%:*}; checks=${spec#*:}; [ "$checks" = "$spec" ] && checks=${id%%-*}
   echo "######## $id"
   /verif/tools/vet_mutant.sh /tmp/mut/$id 2>&1 | tail -1
-  /verif/tools/try_mutant.sh $id $(echo $checks | tr ',' ' ') 2>&1 | grep -E "^==|class=|runs=" | awk '/^==/{n=0} {n++; if (n<=4) print}'
+  /verif/tools/try_scratch.sh $id $(echo $checks | tr ',' ' ') 2>&1 | grep -E "^==|class=|runs=" | awk '/^==/{n=0} {n++; if (n<=4) print}'
 done
